@@ -4,7 +4,7 @@
   Part 1 (this file): mechanism-level KERNEL, a transcription of /repo/builtin_promise.go
   (promise records, resolving functions with the shared `alreadyResolved` latch, thenable job,
   addReactions with the handled flag and the tracker calls, triggerPromiseReactions, the job
-  queue) and of the double-buffered drain loop of Runtime.leave()/leaveAbrupt() (runtime.go:2836-2852),
+  queue) and of the double-buffered drain loop of Runtime.leave()/leaveAbrupt() (runtime.go:2871-2891),
   plus a GENERIC model of that loop over an arbitrary job behaviour (namespace JobQueue).
 
   The kernel state is changed only through `KOp`s; `Reach` is the set of kernel states
@@ -128,7 +128,7 @@ def trigger (k : K) (owner : Nat) : List Reaction → Val → K
   | [], _ => k
   | r :: rs, arg => trigger (enqueue k (fun sid => .reaction sid owner r arg)) owner rs arg
 
-/-- trackPromiseRejection (runtime.go:2948). -/
+/-- trackPromiseRejection (runtime.go:2987). -/
 def track (k : K) (p : Nat) (op : TrackOp) : K := { k with tracker := k.tracker ++ [(p, op)] }
 
 /-- Promise.reject (builtin_promise.go:122). NB: no state check — relies on the latch. -/
@@ -219,13 +219,13 @@ Runtime.NewPromise (:629-630): a new promise (id = old `proms.length`) with its 
 `latches.length`). -/
 def newCap (k : K) : K := createResolvingFunctions (newPromise k) k.proms.length
 
-/-- `jobs, r.jobQueue = r.jobQueue, jobs[:0]` (runtime.go:2839) — only when the batch is exhausted. -/
+/-- `jobs, r.jobQueue = r.jobQueue, jobs[:0]` (runtime.go:2874) — only when the batch is exhausted. -/
 def swap (k : K) : K :=
   match k.cur with
   | [] => { k with cur := k.queue, queue := [] }
   | _ :: _ => k
 
-/-- Start the next job of the batch (`for _, job := range jobs { job() }`, runtime.go:2840).  A thenable
+/-- Start the next job of the batch (`for _, job := range jobs { job() }`, runtime.go:2875).  A thenable
 job begins with createResolvingFunctions (builtin_promise.go:177). -/
 def popJob (k : K) : K :=
   match k.cur with
@@ -236,7 +236,7 @@ def popJob (k : K) : K :=
     | .reaction _ _ _ _ => k
     | .thenable _ p _ _ => createResolvingFunctions k p
 
-/-- leaveAbrupt (runtime.go:2849): the queue is discarded.  (The batch being iterated is
+/-- leaveAbrupt (runtime.go:2884): the queue is discarded.  (The batch being iterated is
 abandoned with the unwinding Go stack.) -/
 def leaveAbrupt (k : K) : K := { k with cur := [], queue := [], enq := k.ran }
 
@@ -295,7 +295,7 @@ def batch (run : Run σ J) : List J → σ → List J → List J → σ × List 
     | (s', new, true) => (s', ran ++ [j], q ++ new, true)
     | (s', new, false) => batch run js s' (ran ++ [j]) (q ++ new)
 
-/-- Runtime.leave() (runtime.go:2836) with `fuel` bounding the number of batches; on an abort the
+/-- Runtime.leave() (runtime.go:2871) with `fuel` bounding the number of batches; on an abort the
 panic propagates to RunProgram/runWrapped whose recover calls leaveAbrupt (queue := nil).
 `none` = fuel exhausted (drain does not terminate within `fuel` batches). -/
 def leave (run : Run σ J) : Nat → σ → List J → List J → Option (Out σ J)
